@@ -409,6 +409,9 @@ convert_drcs(cache_page *vtp, uint8_t *raw)
 			break;
 
 		case DRCS_MODE_12_10_2:
+			if (i + 2 > 48)
+				goto bad_mode;
+
 			if (vtp->data.drcs.invalid & (3ULL << i)) {
 				vtp->data.drcs.invalid |= (3ULL << i);
 				d += 60;
@@ -426,6 +429,9 @@ convert_drcs(cache_page *vtp, uint8_t *raw)
 			break;
 
 		case DRCS_MODE_12_10_4:
+			if (i + 4 > 48)
+				goto bad_mode;
+
 			if (vtp->data.drcs.invalid & (15ULL << i)) {
 				vtp->data.drcs.invalid |= (15ULL << i);
 				d += 60;
@@ -445,7 +451,9 @@ convert_drcs(cache_page *vtp, uint8_t *raw)
 			break;
 
 		case DRCS_MODE_6_5_4:
-			for (j = 0; j < 20; p += 4, d += 6, j++) {
+			/* One PTU: five rows of six pixels in four bit planes,
+			   each pixel doubled horizontally and vertically. */
+			for (j = 0; j < 5; p += 4, d += 12, j++) {
 				q = expand[p[0] & 0x3F]
 				  + expand[p[1] & 0x3F] * 2
 				  + expand[p[2] & 0x3F] * 4
@@ -456,10 +464,12 @@ convert_drcs(cache_page *vtp, uint8_t *raw)
 				d[3] = ((q >> 12) & 15) * 0x11;
 				d[4] = ((q >> 16) & 15) * 0x11;
 				d[5] = (q >> 20) * 0x11;
+				memcpy (d + 6, d, 6);
 			}
 			break;
 
 		default:
+		bad_mode:
 			vtp->data.drcs.invalid |= (1ULL << i);
 			p += 20;
 			d += 60;
